@@ -52,6 +52,10 @@ CLAIMS = {
          "Decides for ALL input lengths and schedules the clause 'closes its output exactly when its input is exhausted' for the six internal combinators (serializer/deserializer pools, plugin channel mux, lookup batcher, two-stage lookup, jump queue): every created/returned channel is closed exactly once by one process on every exit, other producers are joined before the close, every input is ranged to exhaustion by exactly one process without early exit, every channel has a single consumer. Does not decide order or multiplicity of items.",
          "Trusted: go/types, go/cfg; one named exception (copyPipeline) with its reason.",
          "DESIGN.md §4 C13"),
+ "C07": ("process-network close/drain discipline, feed-then-drain detection, synchronous-producer rule, ctx-polling and cancel shape rules, must-Cleanup dataflow (go/types AST + go/cfg)",
+         "Decides liveness structure for ALL data volumes: every constructed step (Processor.Process) and every channel-returning lookup of the embedded driver closes its output exactly once on every exit of its joined producers and drains its input in one process without early exit; no step feeds a bounded fan-out and drains it only afterwards; no function fills a channel before returning it; whole-range store scans consult ctx per row; limit/range derive, return and cancel a context inside their input loop; every resource manager reaches Cleanup() on every exit of its owner. Does not decide absence of deadlock in general, promptness, or mark/jump cycles.",
+         "Trusted: go/types, go/cfg. Scope: engine/core, engine/logic, kvgraph, kvindex (thorough adds grids and gdbi helpers); external-database and plugin drivers are not analysed.",
+         "DESIGN.md §4 C07"),
 }
 
 PENDING_REASON = "check not built yet in this round; see DESIGN.md §4 for the structural clause planned (static analysis)"
